@@ -316,6 +316,15 @@ Proof.
 Qed.
 Print Assumptions C16_write_whole_then_reread.
 
+(* the fields of a selected object u = data[idx], read at any time — before or after u was written, in any order:
+   since /repo 0f67f4c the selection keeps the parent's bytes and the selected record starts (writing it gathers a
+   copy), so every field read decodes the parent's bytes at those starts, i.e. the selected records' spec values *)
+Theorem C16_selected_fields :
+  forall names rs idx, Forall (rec_valid 65536) rs -> Forall (fun i => 0 <= i < len rs) idx ->
+    decode_selected current names (buf_of rs) idx = Some (map (fun r => spec_orec current r names) (select rs idx)).
+Proof. exact (decode_selected_correct repaired 65536 (Z.le_refl _) cb_repaired). Qed.
+Print Assumptions C16_selected_fields.
+
 (* the end-of-file branch of read_chunk (/repo ccb2258: a raw read of 0 bytes with a pending tail) cannot be reached
    on a valid BAM with k >= the largest record: whenever nothing is left to read the pending tail is empty (and no
    record remains), and the reader computes exactly what the reader without that branch computes *)
@@ -401,11 +410,13 @@ Definition ex_case : case :=
   {| k_text := text; k_refs := ex_refs; k_recs := ex_recs; k_stream := encode_file text ex_refs ex_recs;
      k_whole := whole; k_ivs := intervals_buf current names (buf_of ex_recs);
      k_ivs2 := Some (intervals_buf current names (buf_of ex_recs));
+     k_after_iv := whole;
      k_chunked := [(74, [1; 1; 1], whole); (183, [3], whole)];
      k_writes := [ {| w_mode := 1; w_k := 0; w_idx := [2; 0]; w_eof := true;
-                      w_stream := encode_file text ex_refs sel; w_reread := decode_buf current names (buf_of sel) |};
+                      w_stream := encode_file text ex_refs sel; w_reread := decode_buf current names (buf_of sel);
+                      w_post := decode_buf current names (buf_of sel) |};
                    {| w_mode := 0; w_k := 0; w_idx := [0; 1; 2]; w_eof := true;
-                      w_stream := encode_file text ex_refs ex_recs; w_reread := whole |} ] |}.
+                      w_stream := encode_file text ex_refs ex_recs; w_reread := whole; w_post := whole |} ] |}.
 Example C16_link_nonvacuous :
   in_scope ex_case /\ file_ok ex_case = true /\ model_ok ex_case = true /\ spec_ok ex_case = true.
 Proof.
